@@ -226,7 +226,7 @@ def wf_cls(h, c):
         z3.Implies(linear(h, c), z3.And(
             alloc(h, r), qty_cls(h, r) == c, z3.Not(equiv_none(h, r)),
             equiv(h, r) == 1, scale(r) == 1,
-            z3.Not(is_currency(h, r)))),
+            z3.Not(is_currency(h, r)), wf_unit_core(h, r))),
         # a quantum needs a reference unit (asserted by QuantityMeta.__new__)
         z3.Implies(z3.Not(cls_quantum_none(h, c)),
                    z3.And(linear(h, c), cls_quantum(h, c) > 0,
@@ -238,15 +238,11 @@ def wf_cls(h, c):
     )
 
 
-def wf_unit(h, u):
-    """representation invariant of a unit (DESIGN 4.1): a unit of a type with
-    reference unit has a positive scale equal to its chain scale; units of a
-    type without reference unit ("table units": temperature scales,
-    currencies) have none.  Compound units of such types (EUR/kg) are outside
-    (DESIGN section 6, 'observed but outside')."""
+def wf_unit_core(h, u):
+    """unit-level part of wf_unit (everything but the class invariant)"""
     c = qty_cls(h, u)
     return z3.And(
-        alloc(h, u), wf_cls(h, c), c != M.C_QUANTITY,
+        alloc(h, u), c != M.C_QUANTITY,
         is_currency(h, u) == (c == M.C_MONEY),
         z3.Implies(z3.Not(def_none(h, u)),
                    alloc(h, h.get("Unit._definition", u))),
@@ -260,6 +256,15 @@ def wf_unit(h, u):
             z3.Not(h.get("Unit._smallest_fraction#unset", u)),
             h.get("Unit._smallest_fraction#tag", u) == T_DEC)),
     )
+
+
+def wf_unit(h, u):
+    """representation invariant of a unit (DESIGN 4.1): a unit of a type with
+    reference unit has a positive scale equal to its chain scale; units of a
+    type without reference unit ("table units": temperature scales,
+    currencies) have none.  Compound units of such types (EUR/kg) are outside
+    (DESIGN section 6, 'observed but outside')."""
+    return z3.And(wf_unit_core(h, u), wf_cls(h, qty_cls(h, u)))
 
 
 def wf_qty(h, q):
